@@ -787,12 +787,15 @@ package vnet
 //@ lockset C19: Router, Net, udpConnMap, chunkQueue, networkAddressTranslator, mapping, UDPConn, TokenBucketFilter, DelayFilter, LossFilter
 
 // (translateInbound belongs to C02 as well: inbound traffic alone never prolongs a mapping, clause [norefresh])
-//@ property C02: networkAddressTranslator.translateOutbound, networkAddressTranslator.findOutboundMapping, networkAddressTranslator.allocUDPPort, networkAddressTranslator.removeMapping, networkAddressTranslator.translateInbound
-//@ property C03: networkAddressTranslator.translateInbound, networkAddressTranslator.removeMapping
+// the router applies the translation on the way out and in
+//@ property C02: networkAddressTranslator.translateOutbound, networkAddressTranslator.findOutboundMapping, networkAddressTranslator.allocUDPPort, networkAddressTranslator.removeMapping, networkAddressTranslator.translateInbound, Router.processChunks, Router.onInboundChunk
+// permissions consulted by the inbound filter are recorded by translateOutbound
+//@ property C03: networkAddressTranslator.translateInbound, networkAddressTranslator.removeMapping, networkAddressTranslator.translateOutbound, networkAddressTranslator.findOutboundMapping, Router.onInboundChunk
 //@ property C14: chunkQueue.push, chunkQueue.pop, chunkQueue.peek, DelayFilter.onInboundChunk, DelayFilter.Run, Router.push, Router.processChunks, Router.AddChunkFilter
 //@ property C15: TokenBucketFilter.refillTokens, TokenBucketFilter.drainQueue, TokenBucketFilter.run, TokenBucketFilter.onInboundChunk, chunkQueue.push, chunkQueue.pop, chunkQueue.peek
 // (UDPConn.Close belongs to C01 as well: a refused second Close must not unbind the address a successor socket holds)
-//@ property C01: chunkUDP.SourceAddr, chunkUDP.DestinationAddr, chunkUDP.UserData, chunkUDP.Network, chunkUDP.Clone, chunkUDP.setSourceAddr, chunkUDP.setDestinationAddr, Router.processChunks, Router.push, Router.onInboundChunk, Net.write, Net.onInboundChunk, UDPConn.WriteTo, UDPConn.ReadFrom, UDPConn.onInboundChunk, chunkQueue.push, chunkQueue.pop, chunkQueue.peek, udpConnMap.find, UDPConn.Close
+// every function under contract in the files C01 is anchored in that can lose, duplicate or misdeliver a datagram: socket registration, routing table, NAT
+//@ property C01: chunkUDP.SourceAddr, chunkUDP.DestinationAddr, chunkUDP.UserData, chunkUDP.Network, chunkUDP.Clone, chunkUDP.setSourceAddr, chunkUDP.setDestinationAddr, Router.processChunks, Router.push, Router.onInboundChunk, Net.write, Net.onInboundChunk, UDPConn.WriteTo, UDPConn.ReadFrom, UDPConn.onInboundChunk, chunkQueue.push, chunkQueue.pop, chunkQueue.peek, udpConnMap.find, UDPConn.Close, udpConnMap.insert, udpConnMap.delete, Net.onClosed, Net._dialUDP, newUDPConn, Router.addNIC, networkAddressTranslator.translateOutbound, networkAddressTranslator.findOutboundMapping, networkAddressTranslator.allocUDPPort, networkAddressTranslator.removeMapping, networkAddressTranslator.translateInbound
 //@ property C13: Router.assignIPAddress, Router.addNIC, udpConnMap.insert, udpConnMap.find, udpConnMap.delete, newUDPConn, UDPConn.onInboundChunk, UDPConn.Close, Net.onInboundChunk, Net.onClosed, Net.allocateLocalAddr, Net.assignPort, Net._dialUDP
 //@ property C10: newUDPConn, UDPConn.ReadFrom, UDPConn.Read, UDPConn.SetReadDeadline, UDPConn.SetDeadline
 //@ property C16: NewLossFilter, LossFilter.onInboundChunk
